@@ -21,6 +21,8 @@ LEVEL_TEXT = (
     "total sort returns exactly that window; G2 trailing total sort followed only by slices / order-compatible "
     "projections / deduplications is returned as a list in that order (also for every prefix relation); G3 a join, "
     "chain or materialization over an operand ending in an un-sliced sort must raise."
+    "  Sorts may start with a constant term (bare positive integer literal); in a quarter of the cases the engine "
+    "first has to refuse some compilations."
 )
 LEVEL_NOTE = (
     "trusts: determinacy/order labels of ev_bag (DESIGN 4.4); G2 for sort-slice-dedup relies on SQLite returning a "
